@@ -786,13 +786,12 @@ impl Mp4TrackWriter {
 
             stss.entries.push(self.sample_id);
         } else {
-            if !is_sync {
-                return;
-            }
-
-            // Create the stts box if not found and push the entry.
+            // Create the stss box if not found: without one every sample reads back as a
+            // sync sample, so it has to exist (possibly empty) as soon as a sample is not sync.
             let mut stss = StssBox::default();
-            stss.entries.push(self.sample_id);
+            if is_sync {
+                stss.entries.push(self.sample_id);
+            }
             self.trak.mdia.minf.stbl.stss = Some(stss);
         };
     }
